@@ -111,6 +111,11 @@ func buildOverlay() (*overlaySet, error) {
 	}
 	for h, dir := range pkgDirs {
 		files, _ := filepath.Glob(filepath.Join(verifDir, "harness", h, "*.go"))
+		if os.Getenv("VERIF_DEV") != "" {
+			// engine-development harnesses (library battery), never part of a registered check
+			dev, _ := filepath.Glob(filepath.Join(verifDir, "harness", "dev", h, "*.go"))
+			files = append(files, dev...)
+		}
 		if len(files) == 0 && h != "storage" {
 			continue
 		}
